@@ -474,9 +474,9 @@ func modeCodec(tier string, args []string) {
 	rounds := 6
 	bigEvery := 40
 	if tier == "thorough" {
-		rounds = 60
-		bigEvery = 10
-		largeN = 8000 // 65535 names take the list-based model tens of minutes per message: not part of the correspondence runs
+		rounds = 40
+		bigEvery = 20
+		largeN = 4000 // 65535 names take the list-based model tens of minutes per message: not part of the correspondence runs
 	}
 	n := 0
 	for r := 0; r < rounds; r++ {
